@@ -194,7 +194,10 @@ def main(argv=None):
             # canary: a deliberately false obligation generated from the real code must be refuted
             if v.status != be.REFUTED:
                 canaries_ok = False
-                errors.append((ob, f"canary not refuted: {v.status} {v.detail[:200]}"))
+                if getattr(v, "out_of_subset", False):
+                    undecided.append(ob)  # the canary could not be generated from this tree: undecided, not an engine error
+                else:
+                    errors.append((ob, f"canary not refuted: {v.status} {v.detail[:200]}"))
             continue
         if v.status == be.PROVED:
             continue
